@@ -49,6 +49,7 @@ type actors struct {
 	inst     bool
 	t        *Tape
 	settling bool
+	apiLevel bool // this run: every call runs to its end or to a blocking point before the next one is issued
 	steps    int
 	overrun  bool
 }
@@ -115,7 +116,7 @@ func (as *actors) quiesce() map[*actor]string {
 			as.overrun = true
 			return b
 		}
-		if !as.settling && !as.t.Chance("ci-step", 850) {
+		if !as.settling && !as.apiLevel && !as.t.Chance("ci-step", 850) {
 			return b
 		}
 		a := ps[as.t.Choose("ci-which", len(ps))]
@@ -285,6 +286,11 @@ func runConc(env *RunEnv, inst bool) {
 		}
 	}
 	as := &actors{inst: inst, t: t, log: sim.Logf}
+	if inst {
+		// a third of the runs are API-level schedules (what conc-sim does),
+		// the others interleave statement by statement
+		as.apiLevel = t.Chance("ci-api-level", 330)
+	}
 	nact := 0
 	scenario := t.Choose("cc-scenario", 3)
 	if scenario == 2 && storageUsed {
